@@ -33,7 +33,7 @@ pub fn m_new(id: u64) -> TrackDump {
 
 fn m_apply(t: &mut TrackDump, u: &HUpdate, cx: &mut MCtx) -> Result<(), ()> {
     t.updates += 1;
-    t.counter = (t.counter + u.add) % 3;
+    t.counter = (t.counter + u.add) % 4;
     if let Some(g) = u.group {
         t.group = g;
     }
@@ -90,7 +90,7 @@ pub enum HistoryRule {
 pub fn m_merge(dest: &mut TrackDump, src: &TrackDump, classes: &[u64], history: bool, cx: &mut MCtx) -> Result<(u32, HistoryRule), ()> {
     let mut w = dest.clone();
     w.merges += 1;
-    w.counter = (w.counter + src.counter) % 3;
+    w.counter = (w.counter + src.counter) % 4;
     if cx.plan.fail_attr_merge {
         return Err(());
     }
